@@ -753,6 +753,26 @@ def _arrays(ctx, prog):
                     elif named == {5, 6} and not before:
                         # tested before the padding: 5 and 6 are the accepted lengths, the 5-arm pads (checked above)
                         err = True
+            # no length test at all: the sized conversion of the (padded) vector is the test - `<[T; 6]>::try_from(vec)` fails for
+            # every length but 6 - and its failure is mapped to InvalidLength
+            if not err:
+                for t, d, rb in b.return_values():
+                    t = strip(t)
+                    if not (isinstance(t, tuple) and t[0] == 'call' and cname(t[1]) == 'Result::map_err' and len(t) == 4):
+                        continue
+                    conv = strip(t[2])
+                    cb, caps = util.closure_of_term(prog, t[3])
+                    if cb is None or not (isinstance(conv, tuple) and conv[0] == 'call' and cname(conv[1]) in ('TryFrom::try_from', 'TryInto::try_into')):
+                        continue
+                    src = conv[2]
+                    while isinstance(src, tuple) and src[0] in ('ref', 'deref') and isinstance(src[1], tuple):
+                        src = src[1]
+                    from_vec = isinstance(src, tuple) and ((src[0] == 'var' and src[2] == vec) or (src[0] == 'mutb' and src[1] == vec))
+                    crv = [strip(x[0]) for x in cb.return_values()]
+                    to_err = len(crv) == 1 and isinstance(crv[0], tuple) and crv[0][0] == 'agg' and 'InvalidLength' in show(crv[0], maxdepth=3)
+                    sized = '; 6]' in b.local_ty(0)
+                    if from_vec and to_err and sized:
+                        err = True
         return pad, err, padv
 
     for name, rty in (('read_offsets', 'Result<[f64; 6]'), ('read_sign_corrections', 'Result<[i8; 6]')):
